@@ -89,7 +89,8 @@ Proof.
   destruct (trace ss l0) as [recs|] eqn:Ht; [|unfold chief_ref in Hc; rewrite Ht in Hc; discriminate].
   rewrite (chief_ref_on_records ss pz c Hx Hy l0 recs Ht) in Hc. injection Hc as <-.
   rewrite (sample_on_records ss c w Hx Hy _ _ _ _ _ l0 0 0 recs Ht) in Hs. injection Hs as <- _.
-  rewrite tilt_dist_is_tilt_xy. Req. unfold Rdiv. ring.
+  rewrite tilt_dist_is_tilt_xy. unfold k_wf_tilt_xy. rops.
+  destruct (String.eqb (w_ftype c) "angle"); Req; unfold Rdiv; ring.
 Qed.
 
 (** ** sequence / batch plumbing *)
@@ -103,7 +104,7 @@ Proof.
     destruct k; [reflexivity|]. cbn. apply IH. reflexivity.
 Qed.
 
-Lemma sequence_length {A} (l : list (option A)) (r : list A) : sequence l = Some r -> length r = length l.
+Lemma sequence_length {A} (l : list (option A)) (r : list A) : sequence l = Some r -> List.length r = List.length l.
 Proof.
   revert r. induction l as [|a l IH]; intros r H.
   - injection H as <-. reflexivity.
@@ -116,20 +117,20 @@ Theorem field_data_from_samples :
   forall ss pz (c : wfcfg ROps) w Hx Hy chief batch opds ints,
     field_data_from ss pz c w Hx Hy chief batch = Some (opds, ints) ->
     exists ref, chief_ref ss pz c Hx Hy chief = Some ref /\
-      length opds = length batch /\ length ints = length batch /\
+      List.length opds = List.length batch /\ List.length ints = List.length batch /\
       forall k l0 dx dy, nth_error batch k = Some (l0, (dx, dy)) ->
         exists v i, sample ss c w Hx Hy ref l0 dx dy = Some (v, i) /\
                     nth_error opds k = Some v /\ nth_error ints k = Some i.
 Proof.
-  intros ss pz c w Hx Hy chief batch opds ints H. unfold field_data_from in H.
+  intros ss pz c w Hx Hy chief batch opds ints H. unfold field_data_from in H. revert H.
   destruct (chief_ref ss pz c Hx Hy chief) as [ref|]; [|discriminate].
-  destruct (sequence _) as [cells|] eqn:Es; [|discriminate]. injection H as <- <-.
+  destruct (sequence _) as [cells|] eqn:Es; [|discriminate]. intros H. injection H as <- <-.
   exists ref. split; [reflexivity|].
   pose proof (sequence_length _ _ Es) as Hl. rewrite map_length in Hl.
   split; [rewrite map_length; exact Hl|]. split; [rewrite map_length; exact Hl|].
   intros k l0 dx dy Hk. pose proof (sequence_nth _ _ Es k) as Hn.
   rewrite nth_error_map, Hk in Hn. cbn in Hn.
-  destruct (nth_error cells k) as [[v i]|] eqn:Ec; [|discriminate]. cbn in Hn. injection Hn as Hn.
+  rops. revert Hn. destruct (nth_error cells k) as [[v i]|] eqn:Ec; cbn; intros Hn; [|discriminate]. injection Hn as Hn.
   exists v, i. split; [exact Hn|]. rewrite !nth_error_map, Ec. split; reflexivity.
 Qed.
 
@@ -141,13 +142,118 @@ Theorem field_data_chief_zero :
     nth_error dist k = Some (0, 0) ->
     nth_error opds k = Some 0.
 Proof.
-  intros ss pz c lc w Hx Hy vx vy dist opds ints k H Hk. unfold field_data in H.
+  intros ss pz c lc w Hx Hy vx vy dist opds ints k H Hk. unfold field_data in H. revert H.
   destruct (launch lc w Hx Hy (scaled (O:=ROps) (ofZ 0) vx) (scaled (O:=ROps) (ofZ 0) vy) vx vy) as [chief|] eqn:Ec; [|discriminate].
-  destruct (sequence _) as [batch|] eqn:Es; [|discriminate].
+  destruct (sequence _) as [batch|] eqn:Es; [|discriminate]. intros H.
   pose proof (sequence_nth _ _ Es k) as Hn. rewrite nth_error_map, Hk in Hn. cbn [option_map] in Hn.
   change (@ofZ ROps 0) with 0 in Ec. rewrite Ec in Hn.
-  destruct (nth_error batch k) as [b|] eqn:Eb; [|discriminate]. cbn in Hn. injection Hn as <-.
+  rops. revert Hn. destruct (nth_error batch k) as [b|] eqn:Eb; cbn; intros Hn; [|discriminate]. injection Hn as <-.
   destruct (field_data_from_samples _ _ _ _ _ _ _ _ _ _ H) as [ref [Hr [_ [_ Hall]]]].
   destruct (Hall k chief 0 0 Eb) as [v [i [Hs [Hv _]]]].
-  rewrite Hv. f_equal. eapply chief_sample_zero; eassumption.
+  assert (Hz : v = 0) by (eapply chief_sample_zero; eassumption). subst v. exact Hv.
+Qed.
+
+(** ** the reported sample is the path difference of the specification *)
+(** infinite object, angular field along y.  Partial: the field has no vignetting factor, fields.max_y_field
+    = fields.max_field, and object- and image-space indices are 1 (the four recorded findings of C09 are
+    exactly the failures of these hypotheses). *)
+Theorem opd_definition_infinite_partial :
+  forall ss pz (wc : wfcfg ROps) (lc : launchcfg ROps) w Hy dx dy l0c l0 recs_c recs ref v i,
+    lc_infinite lc = true -> lc_angle lc = true -> lc_pos1 lc = 0 ->
+    0 < lc_EPD lc - lc_minpos lc + lc_EPL lc -> 0 < cos (rad (lc_maxfield lc * Hy)) ->
+    w_ftype wc = "angle"%string -> w_maxy wc = lc_maxfield lc -> w_EPD wc = lc_EPD lc ->
+    launch lc w 0 Hy (scaled (O:=ROps) 0 0) (scaled (O:=ROps) 0 0) 0 0 = Some l0c ->
+    launch lc w 0 Hy (scaled (O:=ROps) dx 0) (scaled (O:=ROps) dy 0) 0 0 = Some l0 ->
+    trace ss l0c = Some recs_c -> trace ss l0 = Some recs ->
+    chief_ref ss pz wc 0 Hy l0c = Some ref ->
+    sample ss wc w 0 Hy ref l0 dx dy = Some (v, i) ->
+    let ec := image_rec l0c recs_c in
+    let e := image_rec l0 recs in
+    let Rr := sqrt (ref_radius_sq (rx ec, ry ec, rz ec) pz) in
+    v = opd_waves
+          (path_to_sphere 0 (ropd ec) 1 (dist_back (rx ec) (ry ec) (rz ec) Rr ec))
+          (path_to_sphere (plane_wave_path 1 (rL l0, rM l0, rN l0) (rx l0c, ry l0c, rz l0c) (rx l0, ry l0, rz l0))
+                          (ropd e) 1 (dist_back (rx ec) (ry ec) (rz ec) Rr e))
+          w.
+Proof.
+  intros ss pz wc lc w Hy dx dy l0c l0 recs_c recs ref v i Hinf Hang Hp1 HD Hcos Hft Hmy HE Hl0c Hl0 Htc Ht Hc Hs.
+  cbv zeta.
+  rewrite (chief_ref_on_records ss pz wc 0 Hy l0c recs_c Htc) in Hc. injection Hc as <-.
+  rewrite (sample_on_records ss wc w 0 Hy _ _ _ _ _ l0 dx dy recs Ht) in Hs. injection Hs as <- _.
+  rops. set (ec := image_rec l0c recs_c) in *. set (e := image_rec l0 recs) in *.
+  set (Rr := sqrt (ref_radius_sq (rx ec, ry ec, rz ec) pz)) in *.
+  pose proof (tilt_matches_launch_partial lc w Hy dx dy (ropd ec - dist_back (rx ec) (ry ec) (rz ec) Rr ec)
+                (ropd e - dist_back (rx ec) (ry ec) (rz ec) Rr e) (w_maxx wc) l0 l0c Hinf Hang Hp1 HD Hcos Hl0 Hl0c) as Heq.
+  rewrite Hft, Hmy, HE. unfold k_wf_tilt_xy, k_wf_tilt_dist in *. cbn [String.eqb Ascii.eqb Bool.eqb] in *. rops.
+  unfold opd_waves, path_to_sphere. Req. f_equal. lra.
+Qed.
+
+(** finite object, height fields: no launch offset (every ray starts at the object point).
+    Partial: image-space index 1. *)
+Theorem opd_definition_finite_partial :
+  forall ss pz (wc : wfcfg ROps) w Hx Hy dx dy l0c l0 recs_c recs ref v i,
+    w_ftype wc = "object_height"%string ->
+    trace ss l0c = Some recs_c -> trace ss l0 = Some recs ->
+    chief_ref ss pz wc Hx Hy l0c = Some ref ->
+    sample ss wc w Hx Hy ref l0 dx dy = Some (v, i) ->
+    let ec := image_rec l0c recs_c in
+    let e := image_rec l0 recs in
+    let Rr := sqrt (ref_radius_sq (rx ec, ry ec, rz ec) pz) in
+    v = opd_waves
+          (path_to_sphere 0 (ropd ec) 1 (dist_back (rx ec) (ry ec) (rz ec) Rr ec))
+          (path_to_sphere 0 (ropd e) 1 (dist_back (rx ec) (ry ec) (rz ec) Rr e))
+          w.
+Proof.
+  intros ss pz wc w Hx Hy dx dy l0c l0 recs_c recs ref v i Hft Htc Ht Hc Hs.
+  cbv zeta.
+  rewrite (chief_ref_on_records ss pz wc Hx Hy l0c recs_c Htc) in Hc. injection Hc as <-.
+  rewrite (sample_on_records ss wc w Hx Hy _ _ _ _ _ l0 dx dy recs Ht) in Hs. injection Hs as <- _.
+  rops. set (ec := image_rec l0c recs_c) in *. set (e := image_rec l0 recs) in *.
+  set (Rr := sqrt (ref_radius_sq (rx ec, ry ec, rz ec) pz)) in *.
+  rewrite Hft. unfold k_wf_tilt_xy, k_wf_tilt_dist. cbn [String.eqb Ascii.eqb Bool.eqb]. rops.
+  unfold opd_waves, path_to_sphere. Req. f_equal. ring.
+Qed.
+
+(** both subtracted distances put their points on the reference sphere of the specification (centre = the
+    chief ray's image point, through the axial exit-pupil point) *)
+Theorem sample_points_on_reference_sphere :
+  forall pz (ec e : ray ROps),
+    let cen := (rx ec, ry ec, rz ec) in
+    let R2 := ref_radius_sq cen pz in
+    let Rr := sqrt R2 in
+    rL e * rL e + rM e * rM e + rN e * rN e <> 0 ->
+    0 <= (- (2 * (rL e * (rx e - rx ec) + rM e * (ry e - ry ec) + rN e * (rz e - rz ec)))) *
+         (- (2 * (rL e * (rx e - rx ec) + rM e * (ry e - ry ec) + rN e * (rz e - rz ec))))
+         - 4 * (rL e * rL e + rM e * rM e + rN e * rN e) *
+           ((rx e - rx ec) * (rx e - rx ec) + (ry e - ry ec) * (ry e - ry ec) + (rz e - rz ec) * (rz e - rz ec) - Rr * Rr) ->
+    on_sphere cen R2 (back (rx e, ry e, rz e) (rL e, rM e, rN e) (dist_back (rx ec) (ry ec) (rz ec) Rr e)) /\
+    on_sphere cen R2 (0, 0, pz).
+Proof.
+  intros pz ec e cen R2 Rr Ha Hd.
+  assert (HR2 : 0 <= R2).
+  { unfold R2, ref_radius_sq, sqdist, dot3, sub3, px, py, S_C09.pz, cen. cbn [fst snd].
+    pose proof (sq_nonneg (0 - rx ec)); pose proof (sq_nonneg (0 - ry ec)); pose proof (sq_nonneg (pz - rz ec)). lra. }
+  assert (HRR : Rr * Rr = R2) by (unfold Rr; apply sqrt_sqrt; exact HR2).
+  split.
+  - rewrite <- HRR. unfold dist_back, cen.
+    apply (image_to_xp_on_sphere (rx ec) (ry ec) (rz ec) Rr (rx e) (ry e) (rz e) (rL e) (rM e) (rN e)); assumption.
+  - unfold on_sphere, R2, ref_radius_sq. reflexivity.
+Qed.
+
+(** the hypotheses of [opd_definition_infinite_partial] are satisfiable (degenerate lens with no surface:
+    the image record is the launch record) *)
+Example opd_definition_infinite_example :
+  exists l0c l0 ref v i,
+    launch lc_example (55/100) 0 1 (scaled (O:=ROps) 0 0) (scaled (O:=ROps) 0 0) 0 0 = Some l0c /\
+    launch lc_example (55/100) 0 1 (scaled (O:=ROps) 0 0) (scaled (O:=ROps) 1 0) 0 0 = Some l0 /\
+    trace (O:=ROps) [] l0c = Some [] /\ trace (O:=ROps) [] l0 = Some [] /\
+    chief_ref (O:=ROps) [] (-50) (mkWC (O:=ROps) "angle" 0 30 10) 0 1 l0c = Some ref /\
+    sample (O:=ROps) [] (mkWC (O:=ROps) "angle" 0 30 10) (55/100) 0 1 ref l0 0 1 = Some (v, i).
+Proof.
+  destruct tilt_matches_launch_example as [r [r0 [Hr [Hr0 _]]]].
+  exists r0, r.
+  pose proof (chief_ref_on_records [] (-50) (mkWC (O:=ROps) "angle" 0 30 10) 0 1 r0 [] eq_refl) as Hc.
+  cbv zeta in Hc. eexists. eexists. eexists.
+  split; [exact Hr0|]. split; [exact Hr|]. split; [reflexivity|]. split; [reflexivity|].
+  split; [exact Hc|]. rewrite (sample_on_records [] _ _ _ _ _ _ _ _ _ r 0 1 [] eq_refl). reflexivity.
 Qed.
